@@ -50,6 +50,7 @@ ENTRIES = {
     "p-stubs": ("p-stubs/__init__.pyi", "x: int\n"), "m.py": ("p/m.py", "y = 1\n"), "m.pyi": ("p/m.pyi", "y: int\n"), "m.so": (f"p/{SO}", ""), "m/init": ("p/m/__init__.py", "y = 2\n"),
     "sub/init": ("p/sub/__init__.py", "z = 1\n"), "sub/n": ("p/sub/n.py", "w = 1\n"), "ns/k": ("p/ns/k.py", "v = 1\n"), "pycache": ("p/__pycache__/m.cpython-312.pyc", ""),
     "data": ("p/data.txt", "hello\n"), "dotted": ("p/a.b.py", "u = 1\n"), "pkgutil-ns": ("p/__init__.py", "__path__ = __import__('pkgutil').extend_path(__path__, __name__)\n"),
+    "pkgutil-ns-2line": ("p/__init__.py", "from pkgutil import extend_path\n__path__ = extend_path(__path__, __name__)\n"),
 }
 NAMES = list(ENTRIES)
 # (max entries, permuted directories per schedule); passes are run one after the other
